@@ -194,7 +194,13 @@ func (s *Set[T]) unsafeIterator() *fun.Iterator[T] {
 // the Set's lock when called.
 func (s *Set[T]) Producer() (out fun.Producer[T]) {
 	defer s.with(s.lock())
-	defer func() { mu := s.mtx.Get(); ft.WhenDo(mu != nil, func() fun.Producer[T] { return out.WithLock(mu) }) }()
+	defer func() {
+		// a synchronized set hands out a producer that holds the
+		// set's mutex while it reads the index or the order list.
+		if mu := s.mtx.Get(); mu != nil {
+			out = out.WithLock(mu)
+		}
+	}()
 
 	if s.list != nil {
 		return s.list.Producer()
